@@ -151,7 +151,7 @@ func HarnessC06Buzhash() {
 	if r.frag {
 		// two fragments: split point anywhere interesting (start, middle of the window, near the end)
 		r.frag = false
-		cut := []int{1, buzMin - 32, buzMin - 1, L - 1}[verifrt.NondetRange("cutAt", 0, 3)]
+		cut := []int{1, buzMin - 32, buzMin - 1, buzMin, buzMin + 1, L - 1}[verifrt.NondetRange("cutAt", 0, 5)]
 		if cut < 1 || cut >= L {
 			cut = 1
 		}
@@ -243,6 +243,19 @@ func zzvNewRabinMinMax(r io.Reader, min, avg, max uint64) *Rabin {
 	return &Rabin{reader: r}
 }
 
+// zzvRabinParams returns the (min, max) a Rabin splitter was built with: recorded by the stub under the engine,
+// read back from the third-party chunker natively.
+func zzvRabinParams(s Splitter) (min, max uint64, ok bool) {
+	if verifrt.Symbolic() {
+		return zzvRabinArgs[0], zzvRabinArgs[2], zzvRabinCalled
+	}
+	r, isR := s.(*Rabin)
+	if !isR || r.r == nil {
+		return 0, 0, false
+	}
+	return r.r.MinSize, r.r.MaxSize, true
+}
+
 // HarnessC06ParseRabin3: "rabin-<min>-<avg>-<max>" (optionally labelled) with symbolic 1..7 digit numbers.
 func HarnessC06ParseRabin3() {
 	var vals [3]int
@@ -265,12 +278,16 @@ func HarnessC06ParseRabin3() {
 		spec += string(dg)
 	}
 	zzvRabinCalled = false
-	_, err := FromString(&zzvReader{}, spec)
+	sp, err := FromString(&zzvReader{}, spec)
 	min, avg, max := vals[0], vals[1], vals[2]
 	ok := min >= 16 && min < avg && avg < max && max <= ChunkSizeLimit
 	verifrt.Assert("C06.parse.rabin3.accept-iff-valid", (err == nil) == ok)
-	if err == nil && verifrt.Symbolic() {
-		verifrt.Assert("C06.parse.rabin3.params-passed-through", zzvRabinCalled && zzvRabinArgs[0] == uint64(min) && zzvRabinArgs[1] == uint64(avg) && zzvRabinArgs[2] == uint64(max))
+	if err == nil {
+		gmin, gmax, got := zzvRabinParams(sp)
+		verifrt.Assert("C06.parse.rabin3.params-passed-through", got && gmin == uint64(min) && gmax == uint64(max))
+		if verifrt.Symbolic() {
+			verifrt.Assert("C06.parse.rabin3.avg-passed-through", zzvRabinArgs[1] == uint64(avg))
+		}
 	}
 	verifrt.Observe("ok", err == nil)
 	verifrt.Reach("end")
@@ -282,11 +299,14 @@ func HarnessC06ParseRabin1() {
 	ns := []int{0, 1, 2, 3, 16, 47, 48, 49, 1024, 262144, lim*2/3 - 2, lim*2/3 - 1, lim * 2 / 3, lim*2/3 + 1, lim*2/3 + 2, lim - 1, lim, lim + 1, 1 << 24, 1<<24 + 1, 1 << 30}
 	n := ns[verifrt.NondetRange("ni", 0, len(ns)-1)]
 	zzvRabinCalled = false
-	_, err := FromString(&zzvReader{}, "rabin-"+strconv.Itoa(n))
-	if err == nil && verifrt.Symbolic() {
-		min, avg, max := zzvRabinArgs[0], zzvRabinArgs[1], zzvRabinArgs[2]
-		verifrt.Assert("C06.parse.rabin1.derived", zzvRabinCalled && avg == uint64(n) && min == uint64(n)/3 && max == uint64(n)+uint64(n)/2)
+	sp, err := FromString(&zzvReader{}, "rabin-"+strconv.Itoa(n))
+	if err == nil {
+		min, max, got := zzvRabinParams(sp)
+		verifrt.Assert("C06.parse.rabin1.derived", got && min == uint64(n)/3 && max == uint64(n)+uint64(n)/2)
 		verifrt.Assert("C06.parse.rabin1.max-within-limit", max <= uint64(ChunkSizeLimit))
+		if verifrt.Symbolic() {
+			verifrt.Assert("C06.parse.rabin1.avg", zzvRabinArgs[1] == uint64(n))
+		}
 	}
 	if n+n/2 > ChunkSizeLimit {
 		verifrt.Assert("C06.parse.rabin1.reject-too-large", err != nil)
